@@ -96,6 +96,23 @@ pub fn std_def(symbol: &str) -> Option<(f64, f64)> {
     })
 }
 
+/// standard definitions by ANY conventional key of a unit (names, plurals, secondary symbols), not only the first symbol:
+/// a converter may not attach one of these spellings to a unit of another size
+pub fn std_def_key(key: &str) -> Option<(f64, f64)> {
+    let sym = match key {
+        "'" | "foot" | "feet" => "ft", "\"" | "inch" | "inches" => "in",
+        "liter" | "liters" | "litre" | "litres" | "L" => "l", "milliliter" | "milliliters" | "millilitre" | "millilitres" | "mL" => "ml",
+        "teaspoon" | "teaspoons" => "tsp", "tablespoon" | "tablespoons" | "tbs" => "tbsp", "cup" | "cups" => "c", "pint" | "pints" => "pt", "quart" | "quarts" => "qt", "gallon" | "gallons" => "gal",
+        "fluid ounce" | "fluid ounces" | "floz" | "fl. oz." => "fl oz",
+        "meter" | "meters" | "metre" | "metres" => "m", "centimeter" | "centimeters" | "centimetre" | "centimetres" => "cm", "millimeter" | "millimeters" => "mm", "kilometer" | "kilometers" => "km",
+        "gram" | "grams" => "g", "kilogram" | "kilograms" => "kg", "milligram" | "milligrams" => "mg", "ounce" | "ounces" => "oz", "pound" | "pounds" | "lbs" => "lb",
+        "second" | "seconds" | "sec" | "secs" => "s", "minute" | "minutes" | "mins" => "min", "hour" | "hours" | "hr" | "hrs" => "h", "day" | "days" => "d",
+        "celsius" | "C" | "ºC" | "℃" => "°C", "fahrenheit" | "F" | "ºF" | "℉" => "°F",
+        k => k,
+    };
+    std_def(sym)
+}
+
 fn amount(v: f64, ratio: f64, diff: f64) -> f64 { (v + diff) * ratio }
 pub fn amount_u(v: f64, u: &Unit) -> f64 { amount(v, u.ratio, u.difference) }
 /// scale against which an amount difference is judged (so that offsets do not make 0 K special)
@@ -152,6 +169,18 @@ fn table_checks(ctx: &mut Ctx, w: &World) {
         let us: Vec<&Arc<Unit>> = w.units.iter().filter(|u| u.physical_quantity == q).collect();
         let Some(u0) = us.iter().find(|u| std_def(u.symbol()).is_some()) else { continue };
         let s0 = std_def(u0.symbol()).unwrap();
+        // every conventional key of every unit (a secondary symbol such as `'` or `"`, a plural) has to sit on a unit of its size
+        for u in &us {
+            for k in u.names.iter().chain(u.symbols.iter()).chain(u.aliases.iter()) {
+                if let Some((r, d)) = std_def_key(k) {
+                    ctx.count("unit_keys_checked_against_standard_definition");
+                    if !(close(u.ratio / u0.ratio, r / s0.0, 0.0, 1e-6) && close(u.difference, d, 0.0, 1e-6)) {
+                        ctx.oracle_fail(format!("key {k:?} of unit {:?} of the converter: ratio {:?} difference {:?}", u.symbol(), u.ratio, u.difference),
+                            format!("a unit written {k:?} conventionally has ratio {r:?} relative to {:?} and offset {d:?}", u0.symbol()), "c09:std-key".into());
+                    }
+                }
+            }
+        }
         for u in &us {
             match std_def(u.symbol()) {
                 None => { ctx.count("units_without_standard_definition"); }
@@ -474,6 +503,12 @@ fn recipe_text(rng: &mut Rng, w: &World) -> String {
             1 => s.push_str(&format!("Use a #pan{{{}}}. ", rng.range(1, 3))),
             2 => s.push_str(&format!("Bake at {} {} for a while. ", rng.range(100, 450), rng.pick(&["°C", "F", "C", "ºF"]))),
             3 => s.push_str(&format!("Add @{}{{}}. ", rng.pick(&ING))),
+            4 if rng.chance(1, 2) => {
+                // two amounts in one unit that differ only beyond the third decimal (they print alike), or by a factor of 4 below it
+                let u = rng.pick_str(&["kg", "g", "l", "ml", "cup", "oz", "lb"]);
+                let (a, b) = *rng.pick(&[("1.2504", "1.2496"), ("0.0004", "0.0001"), ("2.00049", "2.0004"), ("3.1", "3.10004")]);
+                s.push_str(&format!("Mix @butter{{{a}%{u}}} with @flour{{{b}%{u}}}. "));
+            }
             _ => s.push_str(&format!("Add @{}{{{}}}. ", rng.pick(&ING), qty_text(rng, w))),
         }
         if rng.chance(1, 4) { s.push_str("\n\n"); }
